@@ -20,7 +20,7 @@
    and in Model/CubeCounts.v, so nothing here is conditional on the position of missing table
    elements.  Open: augment_response overwrites a weighted count measure with the positioned
    unweighted counts -- the model keeps that behaviour, [C06_augment_places] is about the list
-   that IS positioned and [C06_augment_weighted_count_refuted] exhibits the witness. *)
+   that IS positioned; since the repair the count measure is positioned too ([C06_augment_count_measure_positioned]). *)
 From Coq Require Import QArith ZArith List Bool Lia Arith Sorted.
 From CC Require Import Base.XQ Base.ListX Spec.Survey Spec.Restrict Model.CubeCounts Model.Partition
      Proofs.CubeCountsProofs Proofs.CubeCountsIndex Proofs.PartitionSurvey Proofs.PartitionStructure
@@ -347,19 +347,30 @@ Theorem C06_augment_places summary own n counts :
 Proof. exact (augment_places summary own n counts). Qed.
 Print Assumptions C06_augment_places.
 
-(* only result.counts is positioned; the count measure is then OVERWRITTEN with that list, so an
-   augmented weighted filter cube loses its weights (finding
-   C06-augment-overwrites-weighted-count; witness = the replay of the finding) *)
-Theorem C06_augment_weighted_count_refuted :
-  exists summary c c',
-    augment_cube summary c = Some c'
-    /\ weighted_counts_payload (cd_payload c) = [Fin 5; Fin 0]
-    /\ augment_counts (cd_elems0 summary) (cd_elems0 c) 3 (weighted_counts_payload (cd_payload c))
-       = Some [Fin 0; Fin 5; Fin 0]
-    /\ weighted_counts_payload (cd_payload c') = [Fin 0; Fin 2; Fin 0]
+(* result.counts and the count measure (the weighted counts) are positioned each from its own data:
+   whenever the augmentation applies and succeeds, the augmented count measure is the filter cube's
+   own count measure at the positions of its elements (repaired defect
+   C06-augment-overwrites-weighted-count: it used to be overwritten with the unweighted counts) *)
+Theorem C06_augment_count_measure_positioned summary c c' cnt :
+  length (p_counts (cd_payload c)) <> length (p_counts (cd_payload summary)) ->
+  p_count (cd_payload c) = Some cnt ->
+  augment_cube summary c = Some c' ->
+  Some (p_counts (cd_payload c'))
+    = augment_counts (cd_elems0 summary) (cd_elems0 c) (length (p_counts (cd_payload summary)))
+                     (p_counts (cd_payload c))
+  /\ option_map Some (p_count (cd_payload c'))
+     = Some (augment_counts (cd_elems0 summary) (cd_elems0 c) (length (p_counts (cd_payload summary))) cnt).
+Proof. exact (augment_cube_count_positioned summary c c' cnt). Qed.
+Print Assumptions C06_augment_count_measure_positioned.
+
+Theorem C06_augment_weighted_former_witness :
+  exists c',
+    augment_cube aug_witness_summary aug_witness_filter = Some c'
+    /\ weighted_counts_payload (cd_payload aug_witness_filter) = [Fin 5; Fin 0]
+    /\ weighted_counts_payload (cd_payload c') = [Fin 0; Fin 5; Fin 0]
     /\ unweighted_counts_payload (cd_payload c') = [Fin 0; Fin 2; Fin 0].
-Proof. exact augment_weighted_refuted. Qed.
-Print Assumptions C06_augment_weighted_count_refuted.
+Proof. exact augment_weighted_former_witness. Qed.
+Print Assumptions C06_augment_weighted_former_witness.
 
 (* ------------------------------------------------------------------------------------ *)
 (** * examples: the hypotheses are inhabited *)
